@@ -20,6 +20,12 @@
                       header ignored; last-byte-pos is clamped to size-1; a
                       suffix longer than the file means the whole file; a
                       zero-length suffix or an empty file is unsatisfiable.
+   Variant = "isdigit" "rfc", except that a number is whatever str.isdigit()
+                      accepts: U+00B2 passes the syntax check and int() raises
+                      (500) - the tree before fixes/C16-range-ascii-digits.diff.
+   Variant = "intparse" "rfc", except that a number is whatever int() accepts:
+                      signs and digit-group underscores are honoured (206), a
+                      negative suffix length ends in a 500 (seeded C16-7).
    Variant = "pinned" the algorithm of the pinned tree: no clamping, int() on
                       whatever is there (ValueError => 500), suffix start may
                       be negative (seek fails => 500 / broken multipart),
@@ -51,15 +57,20 @@ GR(specs, size, acc) ==
   ELSE LET sp == Head(specs)
            rest == Tail(specs)
        IN
-       IF sp.kind = "bad" THEN
-            (IF Variant = "rfc" \/ sp.a = 3 THEN Res("none", <<>>) ELSE Res("raise500", <<>>))
+       IF sp.kind = "bad" /\ Variant = "intparse" /\ sp.a \in {6, 7, 8} THEN
+            \* int("+5") = 5, int("+1") = 1, int("1_0") = 10: honoured as 1-5, 1-5, 10-20
+            GR(<<IF sp.a = 8 THEN Spc("closed", 10, 20) ELSE Spc("closed", 1, 5)>> \o rest, size, acc)
+       ELSE IF sp.kind = "bad" THEN
+            (IF Variant = "intparse" THEN (IF sp.a = 9 THEN Res("raise500", <<>>) ELSE Res("none", <<>>))  \* "--5": suffix of length -5
+             ELSE IF Variant = "isdigit" THEN (IF sp.a = 10 THEN Res("raise500", <<>>) ELSE Res("none", <<>>))
+             ELSE IF Variant = "rfc" \/ sp.a = 3 THEN Res("none", <<>>) ELSE Res("raise500", <<>>))
        ELSE IF sp.kind = "suffix" THEN
-            (IF Variant = "rfc"
+            (IF Variant # "pinned"
              THEN (IF sp.a = 0 \/ size = 0 THEN GR(rest, size, acc)
                    ELSE GR(rest, size, AddU(acc, <<Max2(0, size - sp.a), size>>)))
              ELSE GR(rest, size, AddU(acc, <<size - sp.a, size>>)))
        ELSE LET stop == IF sp.kind = "open" THEN size - 1 ELSE sp.b IN
-            IF Variant = "rfc"
+            IF Variant # "pinned"
             THEN (IF sp.kind = "closed" /\ sp.b < sp.a THEN Res("none", <<>>)
                   ELSE IF sp.a >= size THEN GR(rest, size, acc)
                   ELSE GR(rest, size, AddU(acc, <<sp.a, Min2(stop, size - 1) + 1>>)))
